@@ -548,14 +548,18 @@ def readDecimal (cs : List Char) : ℚ × List Char :=
     (((natOf (ip ++ fp) : ℕ) : ℚ) / ((10 ^ fp.length : ℕ) : ℚ), r'.dropWhile Char.isDigit)
   | _ => (((natOf ip : ℕ) : ℚ), r)
 
+/-- the one-letter unit suffixes; the letters are case-insensitive (`10D` = `10d`). -/
 def suffixOfChar : Char → Option Suffix
   | '"' => some .arcsec
   | '\'' => some .arcmin
-  | 'd' => some .deg
-  | 'r' => some .rad
-  | 'i' => some .img
-  | 'p' => some .phys
+  | 'd' | 'D' => some .deg
+  | 'r' | 'R' => some .rad
+  | 'i' | 'I' => some .img
+  | 'p' | 'P' => some .phys
   | _ => none
+
+/-- `c` is the letter `l` (given in lower case) in either case. -/
+def isLetter (l c : Char) : Bool := c = l || c = l.toUpper
 
 def startsWithDigit : List Char → Bool
   | c :: _ => c.isDigit
@@ -566,34 +570,29 @@ def readNum (neg : Bool) (cs : List Char) : Num × List Char :=
   let sgn : ℚ := if neg then -1 else 1
   let (a, r) := readDecimal cs
   let ai := natOf (cs.takeWhile Char.isDigit)
+  -- the letters h d m s of the sexagesimal forms are case-insensitive
+  let minSec (mk : ℕ → ℚ → Num) (r1 : List Char) : Num × List Char :=
+    let bi := natOf (r1.takeWhile Char.isDigit)
+    match r1.dropWhile Char.isDigit with
+    | m :: r2 =>
+      if isLetter 'm' m then
+        let (c, r3) := readDecimal r2
+        (mk bi c, match r3 with | sc :: r4 => if isLetter 's' sc then r4 else r3 | [] => r3)
+      else (mk bi 0, m :: r2)
+    | [] => (mk bi 0, [])
   match r with
   | ':' :: r1 =>
     let bi := natOf (r1.takeWhile Char.isDigit)
     match r1.dropWhile Char.isDigit with
     | ':' :: r2 => let (c, r3) := readDecimal r2; (.colon neg ai bi c, r3)
     | r2 => (.colon neg ai bi 0, r2)
-  | 'h' :: r1 =>
-    if startsWithDigit r1 then
-      let bi := natOf (r1.takeWhile Char.isDigit)
-      match r1.dropWhile Char.isDigit with
-      | 'm' :: r2 =>
-        let (c, r3) := readDecimal r2
-        (.hms neg ai bi c, match r3 with | 's' :: r4 => r4 | _ => r3)
-      | r2 => (.hms neg ai bi 0, r2)
-    else (.dec (sgn * a) .none, r)
-  | 'd' :: r1 =>
-    if startsWithDigit r1 then
-      let bi := natOf (r1.takeWhile Char.isDigit)
-      match r1.dropWhile Char.isDigit with
-      | 'm' :: r2 =>
-        let (c, r3) := readDecimal r2
-        (.dms neg ai bi c, match r3 with | 's' :: r4 => r4 | _ => r3)
-      | r2 => (.dms neg ai bi 0, r2)
-    else (.dec (sgn * a) .deg, r1)
   | c :: r1 =>
-    match suffixOfChar c with
-    | some u => (.dec (sgn * a) u, r1)
-    | none => (.dec (sgn * a) .none, r)
+    if isLetter 'h' c && startsWithDigit r1 then minSec (fun b s => .hms neg ai b s) r1
+    else if isLetter 'd' c && startsWithDigit r1 then minSec (fun b s => .dms neg ai b s) r1
+    else
+      match suffixOfChar c with
+      | some u => (.dec (sgn * a) u, r1)
+      | none => (.dec (sgn * a) .none, r)
   | [] => (.dec (sgn * a) .none, [])
 
 def startsWithAlpha : List Char → Bool
